@@ -108,6 +108,17 @@ def run_mutation(case: dict):
         return viol("meaning-changed", f"{u!r} -> {n!r}: {a} vs {b}")
     if p2.normalized != n:
         return viol("not-idempotent", f"{u!r} -> {n!r} -> {p2.normalized!r}")
+    # the normalised form is what the client writes on the wire: the server-side parser must read the same components
+    from nauyaca.protocol.request import GeminiRequest
+
+    if len(n.encode("utf-8")) + 2 <= 1024:
+        try:
+            r = GeminiRequest.from_line(n)
+        except ValueError as e:
+            return viol("wire-form-rejected-by-server-parser", f"{u!r} -> {n!r}: {e}")
+        c = (r.hostname, r.port, r.path, r.query)
+        if not (same_host(a[0], c[0]) and a[1:] == c[1:]):
+            return viol("server-sees-other-components", f"{u!r} -> wire {n!r}: caller's components {a}, server-side parser {c}")
     return ok(accepted=True, normalized=n)
 
 
